@@ -207,7 +207,7 @@ class C03(Check):
     def generate(self, tier, rng):
         n = int(os.environ.get("VERIF_N", 220)) if tier == "quick" else 4000
         for i in range(n):
-            yield gen_case(rng, i, rng.choice([1, 2, 2, 3, 4]))
+            yield gen_case(rng, i, rng.choice([1, 2, 2, 3, 3, 4, 5, 7]))
 
     def features(self, res):
         for f in res.case.meta["feat"]:
